@@ -136,6 +136,8 @@ MUTATIONS = {
         ('decode', 'tonic/src/codec/decode.rs', r'self\.inner\.state = State::Error\(None\);\s*return Poll::Ready\(Some\(Err\(status\)\)\);\s*\}\s*\}\s*\n\s*match ready!', 'return Poll::Ready(Some(Err(status)));\n                }\n            }\n\n            match ready!', 'decode error does not enter the error state'),
     ],
     'C08': [
+        ('metadata', 'tonic/src/metadata/map.rs', r'pub fn clear\(&mut self\) \{\n        self\.headers\.clear\(\);', 'pub fn clear(&mut self) {\n        self.headers.reserve(0);', 'clear leaves the entries in place'),
+        ('metadata', 'tonic/src/metadata/map.rs', r'map\.headers\.contains_key\(\*self\)', 'map.headers.contains_key("te")', 'contains_key(&str) asks about another name'),
         ('metadata', 'tonic/src/metadata/encoding.rs', r'\(Err\(_\), Err\(_\)\) => true,', '(Err(_), Err(_)) => false,', 'two undecodable binary values never compare equal'),
         ('metadata', 'tonic/src/metadata/encoding.rs', r'Self::from_bytes\(value\.as_ref\(\)\)', 'HeaderValue::from_maybe_shared(value).map_err(|_| InvalidMetadataValueBytes::new())', 'an owned binary buffer is written raw instead of base64'),
         ('metadata', 'tonic/src/metadata/value.rs', r'VE::values_equal\(&self\.inner, &other\.inner\)', 'self.inner == other.inner', 'binary values compare by their wire text (padding-sensitive)'),
